@@ -35,12 +35,14 @@ class OpaqueText:
         return bool(symex.mkbool(lift_int(self.length) > 0))
 
 
+# the inserted strings carry what a careless insertion would mangle: a backslash-digit (group reference in a
+# replacement template), a backslash-letter (bad escape), a space and regex metacharacters
 def B(j):
-    return f"\x01{j}\x02"
+    return f"\x01\\{j + 1}\\d .[\x02"
 
 
 def A(j):
-    return f"\x03{j}\x04"
+    return f"\x03\\{j + 1}\\d .]\x04"
 
 
 class H(common.Harness):
